@@ -12,7 +12,7 @@ import random
 import translate
 from harness.chanscen import Scenario, model_request, real_reply, run_real
 from props import c01
-from vlib.common import VERIF, Check, run_model
+from vlib.common import VERIF, Check, hexs, run_model
 
 PID = "C02"
 LOWER_CMDS = ["show vlan 100", "terminal width 511", "show process cpu history aa", "show version", "show run | include lo0", "show ip route  ", "ping 10.0.0.1 repeat 2", "show  two   blanks", "s", "show log | i x"]
@@ -56,9 +56,34 @@ def gen_base(rng, tier):
         if len(o) > 160:
             sc.outputs[k] = o[:rng.choice([0, 10, 60, 99, 100, 101, 160])].rstrip("\\")
     sc.ops = sc.ops[:3]
+    # an abandoned operation (C01 grammar): its cut point must stay inside the (possibly shortened) output, and an operation must follow
+    fixed = []
+    for i, op in enumerate(sc.ops):
+        if op[0] == "abandon":
+            n = len(sc.outputs[op[1].strip()].encode())
+            if n < 4 or i + 1 >= len(sc.ops):
+                continue
+            op = ("abandon", op[1], min(op[2], n - 1))
+        fixed.append(op)
+    sc.ops = fixed
     if sc.echo_junk and any(op[0] == "send_interactive" for op in sc.ops):
         sc.echo_junk = None      # the interactive result keeps the raw echo by design; backspace junk would show in it
     return sc
+
+
+BANNER_TAILS = [" <noc@example.net>", " r1#", " see rtr-9>", " <name>ge-0/0/0</name>", " cost 5$", " [ok]", " node:", " user@host>", " sw1(config)#"]
+
+
+def gen_banner(rng, depth):
+    """a login banner / MOTD longer than the prompt search window, waiting unread when the first operation runs.  No line is a
+    prompt and no PREFIX of a line is one (every line starts with 'word ' and prompt patterns admit no blank before the
+    terminator), but many lines END in text that, taken alone, is prompt-like: only a search that starts in the middle of a line
+    can be fooled, and where a bounded window starts depends on the segmentation."""
+    lines = []
+    while sum(len(x) + 1 for x in lines) < depth * rng.choice([2, 3, 5]):
+        words = " ".join(rng.choice(["notice", "access", "is", "logged", "contact", "the", "noc", "at", "unit", "42"]) for _ in range(rng.randint(1, 6)))
+        lines.append("motd " + words + (rng.choice(BANNER_TAILS) if rng.random() < 0.6 else ""))
+    return ("\n".join(lines) + "\n").encode()
 
 
 def variants(rng, base, tier, stream_len, decorator_spans=None):
@@ -76,7 +101,7 @@ def variants(rng, base, tier, stream_len, decorator_spans=None):
         r = random.Random(rng.random())
         mk("rand", cuts=[r.choice([1, 1, 2, 3, 5, 8, 13, 40]) for _ in range(8000)])
     mk("fixed", cuts=[rng.choice([2, 3, 7])] * 20000)
-    allowed = [k for k in range(1, stream_len) if not (decorator_spans and any(a < k < b for a, b in decorator_spans))]
+    allowed = list(range(1, stream_len))     # every position, also inside an inserted escape sequence (covered since the hold-back fix)
     n1 = len(allowed) if tier == "thorough" else min(len(allowed), 40)
     for k in (allowed if n1 == len(allowed) else rng.sample(allowed, n1)):
         mk("cut1", cut_at=[k])
@@ -117,12 +142,12 @@ def run(tier, seed):
     ck = Check(PID, tier, seed, level="proof")
     ck.rule = ("base scenario (C01 grammar, short streams) x variants: whole reads (reference), 1-byte reads, PRNG cuts, fixed k, every single cut "
                "position and sampled/all double cut positions of the global output stream; decorations: CR insertion, complete escape "
-               "sequences (CSI/SGR/OSC-title/ESC 7,8,M,E) at character boundaries with cuts never inside a sequence, rough mode with junk "
+               "sequences (CSI/SGR/OSC-title/ESC 7,8,M,E) at character boundaries, read cuts anywhere (also inside a sequence), rough mode with junk "
                "interleaved in the echo. Non-trivial = variant differs from the reference in segmentation or decoration; distinct by (base, variant). "
                "Oracle: results, failed flags, bytes written, device exec log and completion identical to the reference run; raw results equal up to "
                "leading/trailing blanks. Each variant is replayed on the Lean model with the recorded read sizes.")
     ck.trusted = ["Lean 4.33.0 kernel; axioms audited", "tools/gen/c01.py", "tools/rx2lean.py + Rx.lean (regex fragment model)", "harness: simdevice/simtransport/chanscen (causal device, Decorator)"]
-    ck.assumptions = ["causal device; sequences are ESC-introduced and complete within one read (cuts inside a sequence: open finding F9)",
+    ck.assumptions = ["causal device; sequences are ESC-introduced, contain no further introducer byte and are at most 256 bytes long (read boundaries may fall anywhere, also inside a sequence)",
                       "rough mode: junk bytes precede echoed bytes, are not input bytes; inputs lower-case (rough matching compares against the lower-cased input)",
                       "login (channel_authenticate_*) chunking is covered by the C09 check"]
     try:
@@ -162,6 +187,12 @@ def run(tier, seed):
             cmds = [c.strip() for c in rng.sample(LOWER_CMDS, 2)]
             base.outputs = {c.strip(): c01.gen_output(rng, 60, cap=120) for c in cmds}
             base.ops = [("send_command", rng.choice(cmds), True, False) for _ in range(rng.randint(1, 3))]
+        if mode == "plain" and bi % 4 == 1 and base.platform != "juniper_junos":
+            # a long unread banner in front of the first get_prompt (library transports log in outside the channel)
+            base.depth = rng.choice([100, 200])
+            base.banner = gen_banner(rng, base.depth)
+            base.ops = [("get_prompt",)] + [op for op in base.ops if op[0] not in ("send_interactive", "abandon")][:2]
+            mode = "banner"
         # reference: undecorated, whole reads
         ref = copy.deepcopy(base)
         ref.decor, ref.echo_junk = None, None
@@ -183,10 +214,12 @@ def run(tier, seed):
                     sample={"base": base.describe(), "tag": tag, "cut_at": v.cut_at} if tag in ("cut2", "rand") else None,
                     tags=(tag, "mode=" + mode, base.platform, base.stack))
             if inside:
-                # a read boundary strictly inside an escape sequence: outside the proved partial statement; known finding F9 if it differs
+                # a read boundary strictly inside an escape sequence: covered by ansi_any_chunk since fix 'strip ansi across reads'
+                # (the channel holds the beginning of a cut sequence back); F9 was the finding that it was not removed
+                ck.extra["variants_with_a_cut_inside_an_escape_sequence"] = ck.extra.get("variants_with_a_cut_inside_an_escape_sequence", 0) + 1
                 if observables(ref, rres) != observables(v, vres):
                     ck.violation({"base": ref.describe(), "variant": v.describe(), "tag": tag, "known": "F9"}, "escape sequence split across reads is not removed", matcher)
-                continue
+                    continue
             compare(ck, ref, rres, tag, v, vres, modelq)
     # generic-driver prompts with a pattern-matching proper prefix (F10): attributed to the finding only under its predicate
     for bi in range(3 if tier == "quick" else 12):
@@ -202,6 +235,7 @@ def run(tier, seed):
             ck.case(("f10", host, str(cuts[:20])), nontrivial=True, tags=("f10-stream",))
             if observables(b, br) != observables(v, vr):
                 ck.violation({"base": b.describe(), "variant": v.describe(), "known": "F10", "tag": "f10"}, "generic prompt prefix matched early", matcher)
+    ansi_differential(ck, tier)
     try:
         outs = run_model("C01", [q[0] for q in modelq], native=True) if modelq else []
     except Exception as e:
@@ -215,6 +249,74 @@ def run(tier, seed):
         else:
             ck.disagree("channel model vs real channel (variant replay)", desc, f"model={out[:300]} real={want[:300]}")
     return ck.finish()
+
+
+def ansi_differential(ck, tier):
+    """the cleaning function of one read (`Channel.read` after the transport read: CR removal, hold-back, strip) on the real class
+    vs the Lean `chanReadH`, chained over random chunkings of ESC-rich random streams AND of well-formed decorated text.
+    Also the stream-level fact the theorem states: for well-formed streams every chunking returns the plain text."""
+    import types
+    from scrapli.channel.base_channel import BaseChannel
+    rng = random.Random(f"{ck.seed}-ansi")
+    alpha = [b"\x1b", b"\x1b", b"\x1b[", b"\x1b]", b"\x9b", b"\x9d", b"[", b"]", b"0", b"1", b"3", b";", b"m", b"K", b"\x07", b"\n", b" ", b"\t", b"a", b"Z", b"7", b"8", b"M", b"E", b"?", b"\r", b"h", b"~"]
+    n = 150 if tier == "quick" else 3000
+    reqs, wants, metas = [], [], []
+
+    def fresh():
+        o = types.SimpleNamespace(_ansi_held=b"")
+        o._strip_ansi = BaseChannel._strip_ansi
+        fn = getattr(BaseChannel, "_strip_ansi_read", None)
+        if fn is None:      # code before the fix: per-read stripping
+            return lambda chunk: (BaseChannel._strip_ansi(chunk) if b"\x1b" in chunk else chunk, b"")
+        return lambda chunk: (fn(o, chunk), o._ansi_held)
+
+    for i in range(n):
+        if i % 2 == 0:
+            stream = b"".join(rng.choice(alpha) for _ in range(rng.randint(1, 40)))
+            plain = None
+        else:
+            parts, plain = [], b""
+            for _ in range(rng.randint(1, 8)):
+                if rng.random() < 0.5:
+                    t = bytes(rng.choice(b"abc xyz\n#>01") for _ in range(rng.randint(0, 6)))
+                    parts.append(t)
+                    plain += t
+                else:
+                    parts.append(rng.choice(SEQS_TAME))
+            stream = b"".join(parts)
+        cuts, off = [], 0
+        while off < len(stream):
+            k = rng.choice([1, 1, 2, 3, 5, 8, 40])
+            cuts.append(stream[off:off + k])
+            off += k
+        read = fresh()
+        held, outs = b"", []
+        for c in cuts:
+            c2 = c.replace(b"\r", b"")
+            out, nheld = read(c2)
+            reqs.append(f"ansih {hexs(held)} {hexs(c)}")
+            wants.append(f"{hexs(out)} {hexs(nheld)}")
+            metas.append({"stream": stream.hex(), "chunk": c.hex(), "held_before": held.hex()})
+            held = nheld
+            outs.append(out)
+        ck.case(("ansi-stream", stream.hex(), str([len(c) for c in cuts])), nontrivial=len(cuts) > 1 and b"\x1b" in stream, tags=("ansi-differential",))
+        if plain is not None and (b"".join(outs) != plain.replace(b"\r", b"") or held):
+            ck.violation({"stream": stream.hex(), "cuts": [len(c) for c in cuts], "returned": b"".join(outs).hex(), "held": held.hex(), "want": plain.hex(), "tag": "ansi-stream"},
+                         "a well-formed decorated stream does not clean to its text under this segmentation (escape sequence cut by a read boundary)")
+    try:
+        outs = run_model("C01", reqs, native=True) if reqs else []
+    except Exception as e:
+        ck.proof_broken("model driver Drv/C01.lean (ansih)", repr(e))
+        return
+    for q, w, o, m in zip(reqs, wants, outs, metas):
+        if o.strip() == w:
+            ck.traces_validated += 1
+        else:
+            ck.disagree("chanReadH (Lean) vs BaseChannel._strip_ansi_read (one read)", m, f"model={o.strip()} real={w}")
+
+
+SEQS_TAME = [b"\x1b[0m", b"\x1b[1;31m", b"\x1b[K", b"\x1b[2J", b"\x1b[?25h", b"\x1b7", b"\x1b8", b"\x1bM", b"\x1bE", b"\x1b]0;r1 title\x07", b"\x1b[1C",
+             b"\x1b[38;5;196m", b"\x1b]2;x\x07", b"\x1b[" + b"1;" * 100 + b"m"]
 
 
 def _cut_inside(vres):
